@@ -139,6 +139,15 @@ CLAIMED = {
              'de-duplication drop only entries within tol.  Pruning boxes contain the curve (degenerate cubic / quadratic routes).',
         note='One recorded known finding (boxes_intersect on zero-width overlaps). Arc pairs, subdivision convergence and the redundant-pair removal loop outside. np.roots completeness is a contract.',
         design='3/C12'),
+    'C06': dict(
+        text='Only the algebraic parts of C06 are claimed.  Line.length identity.  QuadraticBezier.length: the quadratic under the root is '
+             'the squared speed (identity); the closed-form term returned by the real code (sqrt atoms, uninterpreted ln) is differentiated '
+             'by the harness and ds/dt1 = speed, s(t0,t0)=0 are posed over abstract (c2,c1,c0); collinear fold-back quadratics: numpy '
+             'nan semantics modelled by a token, the isnan fallback runs and its piecewise formulas are compared with |a| int |2t-m| dt.  '
+             'segment_length (no-scipy recursion) with uninterpreted point(): dyadic partition, result = chord sum, min_depth honoured.  '
+             'Path.length / length(T0,T1) on stub segments (shared with C05).',
+        note='NOT claimed: that QUADPACK / the chord recursion converge to the true arc length of cubics and arcs (C/Fortran behind a boundary, no closed form), the cusp clause, cancellation for nearly collinear control points. The ds/dt1 = speed query currently comes back unknown from z3 within 120 s and is reported inconclusive (hand-normalised form is unsat in ms; see DESIGN).',
+        design='3/C06'),
 }
 
 NOT_YET = 'check not built yet in this round (see DESIGN.md section 3 for the plan)'
